@@ -227,3 +227,6 @@ package parser
 
 //@ func FormatPacketDsl
 //@   ensures [C09:error-returns-input] result1 != nil ==> result0 == dsl
+
+//@ func WriteCodeToFile
+//@   requires codeMap == codeMap
